@@ -22,6 +22,8 @@ import (
 	"os"
 	"os/exec"
 	"path/filepath"
+	"runtime"
+	"runtime/debug"
 	"strconv"
 	"strings"
 	"syscall"
@@ -53,6 +55,8 @@ func childLocker(args []string) int {
 	mode, idx, journal := args[0], args[1], args[2]
 	in := bufio.NewReader(os.Stdin)
 	switch mode {
+	case "step":
+		return childLockerStep()
 	case "contend":
 		rounds, _ := strconv.Atoi(args[3])
 		seed, _ := strconv.Atoi(args[4])
@@ -70,6 +74,13 @@ func childLocker(args []string) int {
 				continue
 			}
 			appendLine(journal, "enter "+idx)
+			if r.Intn(4) == 0 {
+				// a collection while holding: finalizers of whatever earlier (refused) attempts left behind run now
+				runtime.GC()
+				time.Sleep(2 * time.Millisecond)
+				runtime.GC()
+				appendLine(journal, "gc "+idx)
+			}
 			if holdMax > 0 {
 				time.Sleep(time.Duration(r.Intn(holdMax*1000)) * time.Microsecond)
 			}
@@ -336,6 +347,26 @@ func runLock(c *vlib.Ctx) error {
 			}
 		}
 	}
+	// a process that loses and lives on: lock-step scenarios (see runStepScenario)
+	nstep := argInt(c, "steps", 3)
+	for k := 0; k < nstep; k++ {
+		cid++
+		in := stepIn{Kind: "step", Variant: []string{"refused-hold-gc", "refused-exit", "never-refused", "refused-hold-gc"}[k%4],
+			End: []string{"release", "kill"}[(k/4)%2], Refusals: 1 + c.Rand.Intn(4), Seed: int(c.Rand.Int31())}
+		if k%4 == 3 {
+			in.End = "kill"
+		}
+		recs := runStepScenario(c, self, cid, in)
+		emit(recs)
+		st := recs[len(recs)-1]["stats"].(map[string]any)
+		if st["acquired"].(int) >= 2 && st["failed"].(int) >= 1 {
+			c.NonTrivial(fmt.Sprintf("step/%s/%s/%d", in.Variant, in.End, in.Refusals))
+		}
+		c.AddExtra("step_scenarios", 1)
+		if k == 0 {
+			c.Sample(map[string]any{"in": in, "events": len(recs) - 2})
+		}
+	}
 	// growth: the daemon lifecycle around the lock (real `daemon run` / `stop` processes)
 	ndaemon := argInt(c, "daemons", 3)
 	for k := 0; k < ndaemon; k++ {
@@ -375,7 +406,11 @@ func replayLock(c *vlib.Ctx) error {
 	}
 	vlib.Decode(doc["begin"], &rec)
 	var recs []map[string]any
-	if rec.In["kind"] == "daemon" {
+	if rec.In["kind"] == "step" {
+		var in stepIn
+		vlib.Decode(rec.In, &in)
+		recs = runStepScenario(c, selfPath(), 1, in)
+	} else if rec.In["kind"] == "daemon" {
 		var in daemonIn
 		vlib.Decode(rec.In, &in)
 		recs = runDaemonEpisode(c, selfPath(), 1, in)
@@ -393,4 +428,229 @@ func replayLock(c *vlib.Ctx) error {
 	}
 	c.Eval()
 	return nil
+}
+
+// ---------------------------------------------------------------------------
+// Lock-step scenarios: a process that loses and lives on.
+//
+// "child locker step" obeys one command per input line - acquire (the real
+// daemon.AcquireLock; answers acquired / refused), release, gc (two forced
+// collections, debug.FreeOSMemory, an allocation storm, pauses for the
+// finalizer goroutine, another collection), exit. The parent drives two or
+// three such processes strictly one command at a time, so the order of the
+// events it records is the order in which things happened (pipes, no clock):
+//
+//	refused-hold-gc  A holds; B is refused k times (C too); A releases or is
+//	                 killed; B - the same process - acquires, collects garbage
+//	                 while holding; C keeps trying and must be refused; B
+//	                 collects again; B releases; C acquires
+//	refused-exit     A holds; B is refused k times and exits; A collects; C is
+//	                 refused; A releases; C acquires
+//	never-refused    A holds from a fresh start, collects; C is refused; A
+//	                 releases; C acquires
+//
+// On POSIX closing ANY descriptor of the lock file drops the process's fcntl
+// lock, so a descriptor left open by a refused attempt and closed later by a
+// finalizer would let C in while B believes it holds: "enter" of C with B inside.
+
+func gcStorm() {
+	runtime.GC()
+	runtime.GC()
+	debug.FreeOSMemory()
+	var sink [][]byte
+	for i := 0; i < 256; i++ {
+		sink = append(sink, make([]byte, 32<<10))
+		if i%32 == 31 {
+			sink = nil
+		}
+	}
+	_ = sink
+	time.Sleep(20 * time.Millisecond) // let the finalizer / cleanup goroutine run
+	runtime.GC()
+	time.Sleep(20 * time.Millisecond)
+	runtime.GC()
+}
+
+func childLockerStep() int {
+	in := bufio.NewReader(os.Stdin)
+	var held *daemon.Lock
+	fmt.Println("ready")
+	for {
+		line, err := in.ReadString('\n')
+		switch strings.TrimSpace(line) {
+		case "acquire":
+			if held != nil {
+				fmt.Println("already")
+				break
+			}
+			if l, err := daemon.AcquireLock(); err != nil {
+				fmt.Println("refused")
+			} else {
+				held = l
+				fmt.Println("acquired")
+			}
+		case "release":
+			if held == nil {
+				fmt.Println("notheld")
+				break
+			}
+			if err := held.Release(); err != nil {
+				fmt.Printf("release-error %s\n", asciiOnly(err.Error()))
+			} else {
+				fmt.Println("released")
+			}
+			held = nil
+		case "gc":
+			gcStorm()
+			fmt.Println("gcdone")
+		case "exit":
+			return 0
+		}
+		if err != nil {
+			return 0
+		}
+	}
+}
+
+type stepIn struct {
+	Kind     string `json:"kind"`    // "step"
+	Variant  string `json:"variant"` // refused-hold-gc | refused-exit | never-refused
+	End      string `json:"end"`     // how the first holder ends: release | kill
+	Refusals int    `json:"refusals"`
+	Seed     int    `json:"seed"`
+}
+
+func runStepScenario(c *vlib.Ctx, self string, cid int, in stepIn) []map[string]any {
+	root := c.TempDir("lockstep")
+	defer os.RemoveAll(root)
+	dataDir := filepath.Join(root, "data")
+	must(os.MkdirAll(dataDir, 0o700))
+	procs := map[int]*lockProc{}
+	defer func() {
+		for _, p := range procs {
+			p.in.Close()
+			p.wait(5 * time.Second)
+		}
+	}()
+	start := func(i int) {
+		p := startLocker(self, dataDir, "step", i, filepath.Join(root, "unused"))
+		if p.line(120*time.Second) != "ready" {
+			vlib.Fatal("step process %d did not start", i)
+		}
+		procs[i] = p
+	}
+	recs := []map[string]any{{"ev": "RaceBegin", "cid": cid, "begin": true, "in": in}}
+	ev := func(who int, what string) {
+		recs = append(recs, map[string]any{"ev": "Lock", "cid": cid, "who": who, "what": what})
+	}
+	ask := func(i int, cmd string) string {
+		io.WriteString(procs[i].in, cmd+"\n")
+		res := procs[i].line(120 * time.Second)
+		if res == "" {
+			vlib.Fatal("step process %d did not answer %q", i, cmd)
+		}
+		return res
+	}
+	acquired, refused := 0, 0
+	holds := map[int]bool{} // who answered "acquired" and has not been asked to release
+	acquire := func(i int) bool {
+		if holds[i] {
+			return true // already got in (possibly although somebody else believes to hold)
+		}
+		switch res := ask(i, "acquire"); res {
+		case "acquired":
+			ev(i, "enter")
+			acquired++
+			holds[i] = true
+			return true
+		case "refused":
+			ev(i, "refused")
+			refused++
+			return false
+		default:
+			vlib.Fatal("step process %d: unexpected %q", i, res)
+		}
+		return false
+	}
+	release := func(i int) {
+		// the journal discipline: "exit" is recorded before the lock is given up
+		ev(i, "exit")
+		holds[i] = false
+		if res := ask(i, "release"); res != "released" && !strings.HasPrefix(res, "release-error") {
+			vlib.Fatal("step process %d: release gave %q", i, res)
+		}
+	}
+	gc := func(i int) {
+		ask(i, "gc")
+		ev(i, "gc")
+	}
+	tryAFew := func(i, n int) {
+		for k := 0; k < n && !holds[i]; k++ {
+			acquire(i)
+			time.Sleep(5 * time.Millisecond)
+		}
+	}
+	const A, B, C = 1, 2, 3
+	start(A)
+	start(C)
+	aHolds := acquire(A)
+	switch in.Variant {
+	case "refused-hold-gc":
+		start(B)
+		for k := 0; k < in.Refusals; k++ {
+			acquire(B)
+			if k%2 == 0 {
+				acquire(C)
+			}
+		}
+		if aHolds && in.End == "kill" {
+			ev(A, "killing")
+			procs[A].cmd.Process.Kill()
+			procs[A].cmd.Wait()
+			delete(procs, A)
+			ev(A, "killed")
+		} else if aHolds {
+			release(A)
+		}
+		if acquire(B) { // the same process that was refused before
+			gc(B)
+			tryAFew(C, 3)
+			gc(B)
+			tryAFew(C, 2)
+			release(B)
+		}
+		if acquire(C) {
+			gc(C)
+			release(C)
+		}
+	case "refused-exit":
+		start(B)
+		for k := 0; k < in.Refusals; k++ {
+			acquire(B)
+		}
+		ask(B, "gc")
+		io.WriteString(procs[B].in, "exit\n")
+		procs[B].wait(10 * time.Second)
+		delete(procs, B)
+		if aHolds {
+			gc(A)
+			tryAFew(C, 2)
+			release(A)
+		}
+		if acquire(C) {
+			release(C)
+		}
+	default: // never-refused
+		if aHolds {
+			gc(A)
+			tryAFew(C, 3)
+			gc(A)
+			release(A)
+		}
+		if acquire(C) {
+			release(C)
+		}
+	}
+	recs = append(recs, map[string]any{"ev": "RaceEnd", "cid": cid, "stats": map[string]any{"acquired": acquired, "failed": refused, "finished": len(procs), "overstayed": 0}})
+	return recs
 }
